@@ -4,7 +4,8 @@
    Mirrors src/checker/result.rs (enum CheckResult) and the part of
    src/checker/structure/violation.rs (ViolationType, ViolationCategory) that the baseline,
    ratchet, fail-fast and exit-code logic reads:
-     path                      r_path   (string of Unicode scalar values, as Path::to_string_lossy)
+     path                      r_path   (string of Unicode scalar values; raw bytes of a path that is
+                                        not valid UTF-8 are surrogate units, see scalar_unit)
      violation_category        r_kind   None and Some(Content) are both Content here: every reader
                                         in check_baseline_ops.rs tests only for Some(Structure ..)
      variant                   r_status Passed, Warning, Failed, Grandfathered
@@ -79,6 +80,17 @@ Definition norm_key (p : str) : key :=
 Definition stable_key (k : key) : Prop := norm_key k = k.
 Definition stable_keyb (k : key) : bool := str_eqb (norm_key k) k.
 Definition key_of (r : result) : key := norm_key (r_path r).
+
+(* A path unit is a Unicode scalar value or, in a path that is not valid UTF-8, a unit of the
+   surrogate range D800..DFFF that stands for a raw byte (DC80..DCFF = the bytes 80..FF, the
+   surrogateescape convention; two such paths with the same lossy form stay different strings
+   here). No Rust String and no JSON string contains such a unit, so no key of a baseline file
+   does. Path::to_str is Some exactly for the paths made of scalar values: only these have a
+   baseline key (check_baseline_ops.rs baseline_key, repair of D55); before the repair the key
+   was path_key of the LOSSY form, which maps every raw byte to U+FFFD. *)
+Definition scalar_unit (c : N) : bool := N.ltb c 55296 || N.ltb 57343 c.
+Definition utf8_str (s : str) : bool := forallb scalar_unit s.
+Definition has_key (r : result) : bool := utf8_str (r_path r).
 
 Definition with_status (r : result) (s : status) : result :=
   mkResult (r_path r) (r_kind r) s (r_code r) (r_limit r) (r_hash r).
